@@ -15,7 +15,9 @@ def main(pids, tier, seed, workers, sessions):
     j = 0
     for pid in pids:
         for k in range(sessions):
-            jobs.append({"pid": pid, "tier": tier, "j": j, "seed": H(seed, pid, tier, k), "engine": ENGINE[pid]})
+            eng = ENGINE[pid]
+            eng = eng[k % len(eng)] if isinstance(eng, list) else eng
+            jobs.append({"pid": pid, "tier": tier, "j": j, "seed": H(seed, pid, tier, k), "engine": eng})
             j += 1
     t0 = time.time()
     res = run_jobs(jobs, workers)
